@@ -741,3 +741,76 @@ def mypy_violation(which="models"):
         return f"mypy reports {len(lines)} error(s) on the schematic package '{which}': " + " | ".join(l.split("/")[-1] for l in lines[:4])
     finally:
         shutil.rmtree(tmp, ignore_errors=True)
+
+
+# ---- enum / const / union defaults (convert_value of the composite kinds, natively) -----------------------------------------
+
+ENUM_DEFAULT_VALUES = ["a", "A b", "1st", "", 'q"uote', "it's", "x-y"]
+
+
+def enum_default_cases(tier):
+    out = []
+    for style in (False, True):
+        for v in ENUM_DEFAULT_VALUES:
+            out.append({"kind": "str-enum", "values": [v, "zz"], "default": v, "literal": style})
+            out.append({"kind": "str-enum", "values": ["zz", v], "default": "not-listed", "literal": style})
+        for d in (0, 2, -4):
+            out.append({"kind": "int-enum", "values": [0, 2, -4], "default": d, "literal": style})
+        out.append({"kind": "int-enum", "values": [0, 2], "default": 3, "literal": style})
+        out.append({"kind": "int-enum", "values": [0, 2], "default": "0", "literal": style})
+    for c, d in (("k", "k"), ("k", "other"), (5, 5), (5, 6), (True, True)):
+        out.append({"kind": "const", "const": c, "default": d})
+    for members, d in (([{"type": "integer"}, {"type": "string", "format": "date"}], 3), ([{"type": "integer"}, {"type": "string", "format": "date"}], "2020-01-02"),
+                       ([{"type": "integer"}, {"type": "boolean"}], "nope"), ([{"type": "string"}, {"type": "integer"}], 0)):
+        out.append({"kind": "union", "members": members, "default": d})
+    return out
+
+
+def enum_default(case):
+    import contextlib
+    import importlib
+    import io
+    from . import fragments
+    if case["kind"] in ("str-enum", "int-enum"):
+        schema = {"type": "string" if case["kind"] == "str-enum" else "integer", "enum": case["values"], "default": case["default"]}
+        valid = case["default"] in case["values"] and type(case["default"]) is type(case["values"][0])
+        cfg = {"literal_enums": True} if case.get("literal") else {}
+    elif case["kind"] == "const":
+        schema = {"const": case["const"], "default": case["default"]}
+        valid = case["default"] == case["const"] and type(case["default"]) is type(case["const"])
+        cfg = {}
+    else:
+        schema = {"oneOf": case["members"], "default": case["default"]}
+        valid = case["default"] != "nope"
+        cfg = {}
+    doc = _base(schemas={"M": {"type": "object", "properties": {"p": schema}}})
+    try:
+        with contextlib.redirect_stdout(io.StringIO()):
+            pkg = fragments.generate_package(doc, cfg)
+    except BaseException as e:  # noqa
+        return f"generator raised {type(e).__name__}: {str(e)[:120]}"
+    try:
+        has_m = (pkg.root / "models" / "m.py").exists()
+        if not valid:
+            if has_m:
+                try:
+                    M = pkg.module("models.m").M
+                    v = M().p
+                    if type(v).__name__ != "Unset":
+                        return f"invalid default {case['default']!r} was emitted (attribute default {v!r})"
+                except BaseException:  # noqa
+                    pass
+            return None if pkg.errors or has_m else "model dropped without a diagnostic"
+        if not has_m:
+            return f"valid default {case['default']!r} rejected: {[(e.detail or '')[:80] for e in pkg.errors][:1]}"
+        try:
+            M = pkg.module("models.m").M
+            inst = M()
+        except BaseException as e:  # noqa
+            return f"generated model with default {case['default']!r} does not import/instantiate: {type(e).__name__}: {e}"
+        got = inst.to_dict().get("p", "<absent>")
+        if got != case["default"] or type(got) is not type(case["default"]):
+            return f"omitting the argument encodes {got!r}, the declared default is {case['default']!r}"
+        return None
+    finally:
+        pkg.cleanup()
